@@ -319,3 +319,47 @@ func SHA1Sum(data []byte) [20]byte {
 	}
 	return out
 }
+
+// ---- directories
+
+// FSMkdir registers a directory node.
+func FSMkdir(p string) {
+	if _, ok := FS[p]; !ok {
+		FS[p] = &FNode{Dir: true, Mode: 0o755, MTime: FSClock}
+	}
+}
+
+// Readdirnames: base names of the entries directly under the directory f (files and directories).
+func (f *File) Readdirnames(n int) ([]string, error) {
+	prefix := f.path + "/"
+	var out []string
+	for _, k := range FSList() {
+		if strings.HasPrefix(k, prefix) && !strings.Contains(k[len(prefix):], "/") {
+			out = append(out, k[len(prefix):])
+		}
+	}
+	return out, nil
+}
+
+// OsOpenAny: os.Open for files and directories (a directory exists if registered or non-empty).
+func OsOpenAny(p string) (*File, error) {
+	if _, ok := FS[p]; ok {
+		return &File{path: p}, nil
+	}
+	prefix := p + "/"
+	for k := range FS {
+		if strings.HasPrefix(k, prefix) {
+			return &File{path: p}, nil
+		}
+	}
+	return nil, pathErr("open", p, fs.ErrNotExist)
+}
+
+func OsMkdirAllReal(p string, perm fs.FileMode) error {
+	ok, err := mutating("mkdir", p)
+	if !ok {
+		return err
+	}
+	FSMkdir(p)
+	return nil
+}
